@@ -136,7 +136,9 @@ TwEv(st, e, m) ==
       e0 == [a |-> "upd", dt |-> e.n, ticking |-> TRUE, cpos |-> 0, val |-> v, prev |-> t.cur, fin |-> FALSE,
              exact |-> TRUE, coh |-> TRUE, ia |-> t.cur, ih |-> t.cur + v, ib |-> v]
       a == T6!Advance(t, e0)
-  IN [e0 EXCEPT !.fin = (a.ph = "run" /\ T6!Ended(a, a.hi) /\ v = a.tgt)]
+  \* (the tweener has no finish flag to observe: it is taken to have finished when it shows the target at a moment it may)
+  IN [e0 EXCEPT !.fin = IF a.ph = "run" /\ a.hi = 0 /\ a.dur = 0 THEN v = a.tgt
+                        ELSE (a.ph = "run" /\ T6!Ended(a, a.hi) /\ v = a.tgt)]
 SetEv(s) == [a |-> "set", tgt |-> s.tgt, dur |-> s.dur, ease |-> s.ease, p |-> s.p, sk |-> s.sk,
              delay |-> s.delay, ctgt |-> s.ctgt]
 
@@ -151,7 +153,9 @@ LfoStep(st, e, m) ==
       \* a parameter whose modulator was never there keeps an initial value the statement does not name
       free == l.free \/ (~l.started /\ \E s \in srcs : ~LiveNow(st, e, s))
       adv == e.n * fr
-      exact == l.exact /\ st.tol = 0 /\ fr >= 0 /\ adv % 8 = 0
+      \* (while the frequency moves, how much of the chunk runs at the old and how much at the new frequency is a matter of
+      \*  "one update of timing": the phase is no longer known exactly from the first chunk in which it differs)
+      exact == l.exact /\ st.tol = 0 /\ fr >= 0 /\ adv % 8 = 0 /\ (~l.started \/ fr = l.fr)
       ph == IF exact THEN (l.ph + adv \div 8) % sc ELSE l.ph
   IN [fr |-> fr, am |-> am, of |-> of, free |-> free, exact |-> exact, ph |-> ph]
 
@@ -211,7 +215,9 @@ CheckChunk(st, e) ==
       pars == {q \in Params : st.ps[q] = "active" /\ q <= Len(e.pv)}
   IN
   IF st.left = 0 THEN "chunk_outside_callback"
-  ELSE IF e.n # Min2(st.buf, st.left) THEN "internal_chunk_size"
+  \* (how a callback is cut into internal chunks is the renderer's business: no chunk is longer than the internal buffer,
+  \*  and together they are the callback)
+  ELSE IF e.n < 1 \/ e.n > st.buf \/ e.n > st.left THEN "internal_chunk_size"
   ELSE IF \E m \in Mods : Pres(e, m) /\ Abs(MV(e, m)) > Huge THEN "value_in_range"
   ELSE IF \E m \in Mods : st.ms[m] = "live" /\ ~Pres(e, m) THEN "live_modulator_resolves"
   ELSE IF \E m \in Mods : st.ms[m] = "gone" /\ Pres(e, m) THEN "removed_is_final"
